@@ -869,6 +869,20 @@ class Lib:
         v = self.eng.eval(st, node.args[0])
         return VStream(self.stream_model().stream_of(st, v))
 
+    def sp_EMPTY_LIST_U(self, st, node):
+        return self.eng.empty_list(st, "U")
+
+    def sp_EMPTY_LIST_REF(self, st, node):
+        return self.eng.empty_list(st, "ref:" + node.args[0].value)
+
+    def sp_NEW_EMPTY_DICT(self, st, node):
+        eng = self.eng
+        r = eng.alloc(st, "DictObj")
+        t = st.fresh("emptydict", U)
+        st.assume(z3.Not(TRUTHY(t)))
+        eng.store_field(st, r, "value", VU(t))
+        return r
+
     def sp_EMPTY(self, st, node):
         return VSpecTerm(self.stream_model().EMPTY)
 
@@ -1099,6 +1113,9 @@ class Lib:
             for d in getattr(fnode, "decorator_list", []))
         if pos and pos[0] in ("self", "cls") and not is_static:
             env[pos[0]] = recv if recv is not None else VModule("cls")
+            pos = pos[1:]
+        elif pos and pos[0] == "cls":
+            env["cls"] = VModule("cls")
             pos = pos[1:]
         if len(args) > len(pos):
             raise E.RaiseEx("TypeError", line, "too many positional args")
